@@ -185,7 +185,10 @@ def stream_rules_text(ctx: Ctx) -> Stream:
 		k, rules = real_from_ast(t)
 		if k != 'ok':
 			continue
-		text = rules.pretty() + '\n'
+		try:
+			text = rules.pretty() + '\n'
+		except Exception:  # noqa: BLE001 - rules-ast compares pretty() itself
+			continue
 		if rng.random() < 0.15:
 			# damaged printouts exercise the error path of the engine under the gram rules
 			pos = rng.randrange(len(text))
@@ -281,7 +284,7 @@ def search_round_trip(ctx: Ctx) -> SearchResult:
 		spec = gramlib.tree_show(t)
 		if want != spec:
 			hist['from-ast:differs-from-tree'] += 1
-			res.findings.append(Finding(key='from-ast:differs-from-tree', what=f'Rules.from_ast builds a rule set that is not the one the tuple tree describes; printout {rules.pretty()!r}',
+			res.findings.append(Finding(key='from-ast:differs-from-tree', what=f'Rules.from_ast builds a rule set that is not the one the tuple tree describes: {want[:300]} instead of {spec[:300]}',
 				replay={'tree': t, 'expected': spec, 'got': want}))
 			continue
 		text = ''
@@ -405,8 +408,15 @@ def search_fixed_points(ctx: Ctx) -> SearchResult:
 	law('gram_rules() == from_ast(compile(gram.lark))', 'fixed:gram-module-data', lambda: module_data('gram.lark', gram_rules))
 
 	# compiled rules vs originals on sentences
-	py_direct = Rules.from_ast(compile_lark('py_gram.lark').simplify())
-	py_module = py_rules()
+	try:
+		py_direct = Rules.from_ast(compile_lark('py_gram.lark').simplify())
+		gram_direct = Rules.from_ast(compile_lark('gram.lark').simplify())
+		py_module = py_rules()
+	except Exception as e:  # noqa: BLE001 - already reported by the laws above; nothing to compare sentences with
+		hist[f'compile-for-sentences:{exc_enum(e)}'] += 1
+		res.distinct = res.cases
+		res.histogram = dict(hist)
+		return res
 	pw = c11.PyWorld(rng)
 	tk = Tokenizer()
 	sentences = c11.gen_sentences(pw, ctx.scale(60, 450), 60, 3)
@@ -425,7 +435,6 @@ def search_fixed_points(ctx: Ctx) -> SearchResult:
 			b = gramlib.real_parse(py_module, gramlib.FixedTokenizer(tokens), text)
 			return None if a == b else f'{text!r}: direct {a} vs module {b}'
 		law('py: compiled vs checked-in rules on a sentence', 'accept-same:py', same)
-	gram_direct = Rules.from_ast(compile_lark('gram.lark').simplify())
 	gen = gramlib.RuleGen(rng)
 	for _ in range(ctx.scale(60, 450)):
 		k, rules = real_from_ast(gen.grammar(rng.randint(1, 4), rng.randint(0, 2), bare_groups=rng.random() < 0.2))
@@ -453,6 +462,27 @@ def search_fixed_points(ctx: Ctx) -> SearchResult:
 # ---------------------------------------------------------------------------------------------
 
 
+def guarded(kind: str, name: str, fn, ctx: Ctx):
+	"""Run one stream / search; an exception that escapes it (raised by the code under test at a place the harness did not expect,
+	e.g. while loading the rule modules) becomes a reported result instead of a harness crash (CONVENTIONS addendum 14)."""
+	import traceback
+	try:
+		return fn(ctx)
+	except common.InfraError:
+		raise
+	except Exception as e:  # noqa: BLE001
+		tail = ''.join(traceback.format_exception(type(e), e, e.__traceback__)[-6:])
+		if kind == 'stream':
+			st = Stream(name)
+			st.cases = 1
+			st.disagreements.append({'case': 'stream aborted', 'op': name, 'real': f'{type(e).__name__}: {e}', 'model': '(not reached)', 'traceback': tail})
+			return st
+		res = SearchResult(name)
+		res.cases = 1
+		res.findings.append(Finding(key=f'search-aborted:{type(e).__name__}', what=f'{name}: the real code raised {type(e).__name__}: {e}', replay={'search': name, 'traceback': tail}))
+		return res
+
+
 STATEMENTS = {
 	'ast_rt_from_to': 'fromAst (toAst g) = g for every canonical rule set g (all shapes the meta-grammar can express, incl. bare groups)',
 	'ast_rt_to_from': 'toAst (fromAst t) = t for every well-shaped tuple tree t',
@@ -471,9 +501,9 @@ def run(ctx: Ctx) -> int:
 	ok, msg = translate(ctx)
 	proof = common.prove(ctx, PROP, leanchecker=ctx.thorough)
 	with ctx.timed('correspondence'):
-		streams = [stream_rules_ast(ctx), stream_rules_text(ctx)]
+		streams = [guarded('stream', 'rules-ast', stream_rules_ast, ctx), guarded('stream', 'rules-text', stream_rules_text, ctx)]
 	with ctx.timed('search'):
-		searches = [search_round_trip(ctx), search_fixed_points(ctx)]
+		searches = [guarded('search', 'round-trip', search_round_trip, ctx), guarded('search', 'fixed-points', search_fixed_points, ctx)]
 	return common.finish(ctx, proof, streams, searches, translate_ok=ok, translate_msg=msg,
 		statements=STATEMENTS,
 		partial={
